@@ -4,7 +4,7 @@
 # Evidence of these runs goes to a scratch directory, never to /verif/evidence.
 set -e
 MODE=$1; ARG=$2; shift 2
-S=/var/tmp/sv-mut
+S=/var/tmp/sv-mut2
 rm -rf $S/repo; mkdir -p $S/repo $S/evidence
 rsync -a --exclude target --exclude .git /repo/ $S/repo/
 cd $S/repo
@@ -15,6 +15,6 @@ else
 fi
 cd /verif
 for id in "$@"; do
-  SV_REPO=$S/repo SV_TARGET_DIR=/verif/.cache/target-mut SV_EVIDENCE_DIR=$S/evidence ./sv check $id || true
+  SV_REPO=$S/repo SV_TARGET_DIR=/verif/.cache/target-mut2 SV_EVIDENCE_DIR=$S/evidence ./sv check $id || true
 done
 rm -rf $S/repo
